@@ -189,3 +189,33 @@ M("r4c-end-off-by-one", ["C12", "C15"], "break",
 M("r4c-benign-positive-form", ["C12", "C15"], "benign",
   [("yaep.c", "      if ((code < symbs_ptr->symb_code_trans_vect_start)\n          || (code >= symbs_ptr->symb_code_trans_vect_end))\n        {\n          return NULL;\n        }\n      else\n        {\n          return symbs_ptr->symb_code_trans_vect\n            [code - symbs_ptr->symb_code_trans_vect_start];\n        }",
     "      if (code >= symbs_ptr->symb_code_trans_vect_start\n          && code <= symbs_ptr->symb_code_trans_vect_end - 1)\n        return symbs_ptr->symb_code_trans_vect\n          [code - symbs_ptr->symb_code_trans_vect_start];\n      return NULL;")])
+
+# ---- C13 / C04 / C05 -----------------------------------------------------------------------------
+M("r9-revert-F12", ["C04"], "break",
+  [("yaep.c", "      else\n	/* The node has been already processed through another parent.  */\n	*cost = -node->val.anode.cost - 1;\n", "")], "prune_to_minimal/*cost")
+M("r9-ambiguous-not-reset", ["C05"], "break",
+  [("yaep.c", "  *root = NULL;\n  *ambiguous_p = FALSE;\n  pl_init ();", "  *root = NULL;\n  pl_init ();")], "yaep_parse/*ambiguous_p")
+M("r13-revert-F13-insert", ["C13"], "break",
+  [("yaep.c", "	  *entry = (hash_table_entry_t) *node_ptr;\n	  if ((*node_ptr)->type == YAEP_NIL)", "	  if ((*node_ptr)->type == YAEP_NIL)")], "find_minimal_translation/parse_free")
+M("r13-name-not-deduped", ["C13"], "break",
+  [("yaep.c", "		      *entry\n			= (hash_table_entry_t) (*node_ptr)->val.anode.name;\n", "")], "find_minimal_translation/parse_free")
+M("r13-singletons-freed-in-pruning", ["C13"], "break",
+  [("yaep.c", "	  if ((*node_ptr)->type == YAEP_NIL)\n	    /* It will be freed by make_parse.  */\n	    (*node_ptr)->val.nil.used = 0;\n	  else if ((*node_ptr)->type == YAEP_ERROR)\n	    (*node_ptr)->val.error.used = 0;\n	  else\n	    {", "	    {")], "singletons-excluded")
+M("r13-free-reserved-instead", ["C13"], "break",
+  [("yaep.c", "	  if (*entry != NULL)\n	    continue;\n	  /* The same node", "	  if (*entry == NULL)\n	    continue;\n	  /* The same node")], "find_minimal_translation/parse_free")
+M("r13-nil-not-marked", ["C13", "C02"], "break",
+  [("yaep.c", "		  place_translation (parent_anode->val.anode.children +\n				     parent_disp, empty_node);\n		  empty_node->val.nil.used = 1;", "		  place_translation (parent_anode->val.anode.children +\n				     parent_disp, empty_node);")], "make_parse/place-NIL")
+M("r13-nil-child-not-marked", ["C13", "C02"], "break",
+  [("yaep.c", "			anode->val.anode.children[i] = empty_node;\n			empty_node->val.nil.used = 1;", "			anode->val.anode.children[i] = empty_node;")], "make_parse/place-NIL")
+M("r13-error-not-marked", ["C13"], "break",
+  [("yaep.c", "		      node = error_node;\n		      error_node->val.error.used = 1;", "		      node = error_node;")], "make_parse/place-ERROR")
+M("r13-free-singleton-unconditionally", ["C13"], "break",
+  [("yaep.c", "      if (!empty_node->val.nil.used)\n	{\n	  parse_free (empty_node);\n	}", "      parse_free (empty_node);")], "make_parse/parse_free")
+M("t4-name-from-grammar", ["C13"], "break",
+  [("yaep.c", "		      node->val.anode.name = sit_rule->caller_anode;", "		      node->val.anode.name = sit_rule->anode;")], "store-anode.name")
+M("t4-caller-anode-from-os", ["C13"], "break",
+  [("yaep.c", "			  sit_rule->caller_anode\n			    = ((char *)\n			       (*parse_alloc) (strlen (sit_rule->anode) + 1));", "			  sit_rule->caller_anode\n			    = ((char *)\n			       yaep_malloc (grammar->alloc, strlen (sit_rule->anode) + 1));")], "store-caller_anode")
+M("t4-node-from-library-heap", ["C13"], "break",
+  [("yaep.c", "  alt = (struct yaep_tree_node *) (*parse_alloc) (sizeof\n						  (struct yaep_tree_node));", "  alt = (struct yaep_tree_node *) yaep_malloc (grammar->alloc, sizeof\n						  (struct yaep_tree_node));")], "node-cast")
+M("r13-benign-helper-mark", ["C13"], "benign",
+  [("yaep.c", "		  place_translation (parent_anode->val.anode.children +\n				     parent_disp, empty_node);\n		  empty_node->val.nil.used = 1;", "		  empty_node->val.nil.used = 1;\n		  place_translation (parent_anode->val.anode.children +\n				     parent_disp, empty_node);")])
